@@ -12,6 +12,7 @@ import (
 
 	"verifh/mon"
 	"verifh/ref/ec"
+	"verifh/ref/sm2sig"
 )
 
 // One operation of a signing history on a key object whose scalar is invalid.
@@ -163,6 +164,92 @@ func history(x *mon.Ctx) {
 		if c.Call("FromECPrivateKey", func() { obj, err = new(sm2.PrivateKey).FromECPrivateKey(ek) }) && err == nil {
 			playHistory(c, "sm2", bs.name, obj, ek, seq, histBudget)
 		}
+		c.End()
+	}
+
+	// re-keyed objects: FromECPrivateKey may be called on a receiver that has been used before. After every
+	// installation the object must sign for the scalar it holds NOW (its lazily cached inverse of d+1 belongs to
+	// the previous scalar): valid scalars give signatures the reference accepts under [d]G, invalid ones an error.
+	for i := 0; i < x.Scale(150, 3000); i++ {
+		c := x.Begin("history sm2 rekey i=%d (scalars, operations, messages from the case PRNG)", i)
+		if c == nil {
+			continue
+		}
+		obj := new(sm2.PrivateKey)
+		nk := c.R.Range(2, 4)
+		pattern := ""
+		for j := 0; j < nk; j++ {
+			valid := c.R.Intn(4) != 0
+			var d *big.Int
+			var ek *ecdsa.PrivateKey
+			dname := ""
+			if valid {
+				dname = dKinds[c.R.Intn(len(dKinds))]
+				d = pickD(c.R, dname)
+				ek = &ecdsa.PrivateKey{PublicKey: *pubOf(ec.BaseMul(d)), D: new(big.Int).Set(d)}
+				pattern += "v"
+			} else {
+				bs := badScalars[c.R.Intn(len(badScalars))]
+				dname = bs.name
+				d = bs.f(n, 32)
+				ek = sm2InvalidKey(d)
+				pattern += "i"
+			}
+			var err error
+			what := fmt.Sprintf("installation %d of %d (d=%s, valid=%v): FromECPrivateKey on the same receiver", j+1, nk, dname, valid)
+			if !c.Call(what, func() { _, err = obj.FromECPrivateKey(ek) }) {
+				break
+			}
+			if err != nil {
+				if valid {
+					c.Fail("reject", "%s refused a valid scalar: %v", what, err)
+					break
+				}
+				c.Event("key_refused_at_construction", 1)
+				continue
+			}
+			P := ec.BaseMul(d)
+			for k := c.R.Range(1, 2); k > 0; k-- {
+				oi := c.R.Intn(4) // the operations that use the long-lived object
+				op := histOps[oi]
+				uid := [][]byte{nil, c.R.Bytes(1 + c.R.Intn(20))}[c.R.Intn(2)]
+				msg := c.R.Bytes(c.R.Intn(80))
+				dg := c.R.Bytes(32)
+				rd := newScript(c)
+				rd.MaxBytes = histBudget
+				var sig []byte
+				w := fmt.Sprintf("%s: %s", what, op.name)
+				if !c.Call(w, func() { sig, err = op.run(rd, obj, ek, uid, msg, dg) }) {
+					break
+				}
+				c.Event("rekey_sign_calls", 1)
+				if !valid {
+					if err == nil {
+						c.Fail("accept", "%s returned a signature for the invalid scalar %s", w, dname)
+					}
+					continue
+				}
+				if err != nil {
+					c.Fail("reject", "%s failed for a valid scalar: %v", w, err)
+					continue
+				}
+				e := dg
+				switch oi {
+				case 1:
+					e, _ = sm2sig.MessageDigest(P.X, P.Y, sm2sig.DefaultID, msg)
+				case 2:
+					e, _ = sm2sig.MessageDigest(P.X, P.Y, effUID(uid), msg)
+				}
+				c.Event("compare", 1)
+				if r := sm2sig.Verify(P, e, sig); r != sm2sig.Accept {
+					c.Detail("signature", sig)
+					c.Detail("digest", e)
+					c.Detail("d", d.Text(16))
+					c.Fail("mismatch", "%s: the signature does not satisfy the verification equation under [d]G of the scalar the object holds now (reference: %s); history of scalars so far: %s", w, r, pattern)
+				}
+			}
+		}
+		c.Class("sm2-rekey/%s", pattern)
 		c.End()
 	}
 
